@@ -165,6 +165,8 @@ structure Bounded (r : Reg) (L : Ledger) : Prop where
   bounds : ∀ p b, (p, b) ∈ L → r.minptr ≤ p ∧ p ≤ r.maxptr
   aligned : ∀ p b, (p, b) ∈ L → p % 8 = 0
   zero : r.n = 0 → r.minptr = uintptrMax ∧ r.maxptr = 0
+  /-- no live object sits at NULL (GC_Rem_Ptr returns at once for NULL, GC_Sweep's last loop skips NULL words) -/
+  nonnull : ∀ p b, (p, b) ∈ L → p ≠ 0
 
 /-- **GC_Mark_Item** on one address -/
 theorem markSlot_core (c : Cfg) (r : Reg) (L : Ledger) (mk : Nat → Bool → Bool) (h : Core c r L mk)
@@ -232,7 +234,7 @@ theorem markAllSlots_core (c : Cfg) (L : Ledger) :
     obtain ⟨s1, hs1, hcore1, hocc1⟩ := markSlot_core c r L mk h hc hroom hb p
     have hc1 : ({ r with slots := s1 } : Reg).nitems = occ ({ r with slots := s1 } : Reg).slots := by
       show r.nitems = occ s1; rw [hocc1]; exact hc
-    obtain ⟨s', hs', hcore', hocc'⟩ := ih { r with slots := s1 } _ hcore1 hc1 hroom ⟨hb.bounds, hb.aligned, hb.zero⟩
+    obtain ⟨s', hs', hcore', hocc'⟩ := ih { r with slots := s1 } _ hcore1 hc1 hroom ⟨hb.bounds, hb.aligned, hb.zero, hb.nonnull⟩
     refine ⟨s', by simp only [markAllSlots, hs1]; exact hs', ⟨hcore'.inv, ?_⟩, by rw [hocc']; exact hocc1⟩
     intro e
     have := hcore'.ents e
@@ -356,12 +358,46 @@ theorem collectBy_nodup (L : Ledger) (mk : Nat → Bool → Bool) (h : (L.map Pr
   List.Nodup.sublist (List.Sublist.map _ List.filter_sublist) h
 
 theorem wf_init (c : Cfg) : WF c Reg.init [] := by
-  refine ⟨⟨inv0_replicate_none _ _, ?_⟩, ?_, Or.inr ⟨rfl, rfl⟩, ⟨by simp, by simp, fun _ => ⟨rfl, rfl⟩⟩, by simp, rfl⟩
+  refine ⟨⟨inv0_replicate_none _ _, ?_⟩, ?_, Or.inr ⟨rfl, rfl⟩, ⟨by simp, by simp, fun _ => ⟨rfl, rfl⟩, by simp⟩, by simp, rfl⟩
   · intro e
     constructor
     · rintro ⟨q, hq, _⟩; exact absurd hq (Nat.not_lt_zero _)
     · rintro ⟨h, _⟩; simp at h
   · show 0 = occ (Vector.replicate 0 none); rw [occ_replicate_none]
+
+/-- **GC_Unmark**: whatever mark bits the entries carry (`mk` arbitrary: a mark phase left by an exception), afterwards
+    every entry is unmarked and nothing else changed -/
+theorem unmark_core (c : Cfg) (r : Reg) (L : Ledger) (mk : Nat → Bool → Bool) (h : Core c r L mk) :
+    Core c (unmark r) L noMark ∧ occ (unmark r).slots = occ r.slots ∧ SameMeta r (unmark r) ∧ (unmark r).n = r.n := by
+  refine ⟨⟨inv0_map_payload _ _ h.inv _ (fun _ => rfl) (fun _ => rfl), ?_⟩, occ_map_payload _ _, ⟨rfl, rfl, rfl, rfl, rfl, rfl⟩, rfl⟩
+  intro e'
+  show Mem (clearMarks r.slots) e' ↔ _
+  unfold clearMarks
+  rw [mem_map_payload]
+  constructor
+  · rintro ⟨e, he, rfl⟩
+    obtain ⟨h1, _, h3⟩ := (h.ents e).1 he
+    exact ⟨h1, rfl, h3⟩
+  · rintro ⟨h1, h2, h3⟩
+    refine ⟨⟨e'.key, e'.home, ⟨e'.val.root, mk e'.key e'.val.root⟩⟩, (h.ents _).2 ⟨h1, rfl, h3⟩, ?_⟩
+    rw [clear_eq]
+    exact ent_eta e' _ _ _ _ rfl rfl rfl h2
+
+/-- the state GC_Mark starts from is well formed whichever way the flag says, when the state was (all marks clear) -/
+theorem markStart_wf (c : Cfg) (r : Reg) (L : Ledger) (hwf : WF c r L) :
+    WF c (markStart c r) L ∧ SameMeta r (markStart c r) ∧ (markStart c r).n = r.n := by
+  unfold markStart
+  cases c.markUnmarks with
+  | false => exact ⟨hwf, SameMeta.refl r, rfl⟩
+  | true =>
+    obtain ⟨h1, h2, h3, h4⟩ := unmark_core c r L noMark hwf.core
+    refine ⟨⟨h1, ?_, hwf.room, ⟨hwf.bounded.bounds, hwf.bounded.aligned, hwf.bounded.zero, hwf.bounded.nonnull⟩, hwf.nodup, hwf.pend⟩, h3, h4⟩
+    show r.nitems = occ (unmark r).slots
+    rw [h2]; exact hwf.count
+
+theorem gcMark_eq (c : Cfg) (r : Reg) (marks : List Nat) (h : r.nitems ≠ 0) :
+    gcMark c r marks = markAll c (markRoots (markStart c r)) marks := by
+  unfold gcMark; rw [if_neg h]
 
 /-- a full collection: mark (roots by the root loop when `roots`), GC_Mark_Item on `marks`, sweep -/
 theorem collect_wf (c : Cfg) (g : GoodCfg c) (r : Reg) (L : Ledger) (hwf : WF c r L) (roots : Bool) (marks : List Nat) :
@@ -377,7 +413,7 @@ theorem collect_wf (c : Cfg) (g : GoodCfg c) (r : Reg) (L : Ledger) (hwf : WF c 
     | false => exact ⟨noMark, hwf.core, hwf.count, hwf.room, hwf.bounded, rfl, SameMeta.refl r, by intro q b; simp [noMark]⟩
     | true =>
       obtain ⟨h1, h2, h3, h4⟩ := markRoots_core c r L noMark hwf.core
-      refine ⟨_, h1, ?_, ?_, ⟨hwf.bounded.bounds, hwf.bounded.aligned, hwf.bounded.zero⟩, rfl, h3, ?_⟩
+      refine ⟨_, h1, ?_, ?_, ⟨hwf.bounded.bounds, hwf.bounded.aligned, hwf.bounded.zero, hwf.bounded.nonnull⟩, rfl, h3, ?_⟩
       · show r.nitems = occ (markRoots r).slots; rw [h2]; exact hwf.count
       · exact hwf.room
       · intro q b; cases b <;> simp [noMark]
@@ -393,7 +429,7 @@ theorem collect_wf (c : Cfg) (g : GoodCfg c) (r : Reg) (L : Ledger) (hwf : WF c 
     intro x _
     rw [← Bool.or_assoc, hmk0]
   rw [hfilter] at hcore'
-  refine ⟨r1, r', t, hr1, hsw, ⟨hcore', hc', hroom', ⟨?_, ?_, ?_⟩, ?_, hpend⟩, ?_⟩
+  refine ⟨r1, r', t, hr1, hsw, ⟨hcore', hc', hroom', ⟨?_, ?_, ?_, ?_⟩, ?_, hpend⟩, ?_⟩
   · intro p b hp
     rw [hmin, hmax, hmeta1.minptr, hmeta1.maxptr, hmeta0.minptr, hmeta0.maxptr]
     exact hwf.bounded.bounds p b (List.mem_filter.1 hp).1
@@ -403,6 +439,7 @@ theorem collect_wf (c : Cfg) (g : GoodCfg c) (r : Reg) (L : Ledger) (hwf : WF c 
     rw [hn1, hn0] at this
     rw [hmin, hmax, hmeta1.minptr, hmeta1.maxptr, hmeta0.minptr, hmeta0.maxptr]
     exact hwf.bounded.zero this
+  · intro p b hp; exact hwf.bounded.nonnull p b (List.mem_filter.1 hp).1
   · exact List.Nodup.sublist (List.Sublist.map _ List.filter_sublist) hwf.nodup
   · rw [hrun, hmeta1.running, hmeta0.running]
 
@@ -420,7 +457,7 @@ theorem mem_ledger_of_core {c : Cfg} {r : Reg} {L : Ledger} (h : Core c r L noMa
 
 /-- **GC_Set** (collector running, address not live, plain destructors) -/
 theorem gcSet_wf (c : Cfg) (g : GoodCfg c) (r : Reg) (L : Ledger) (hwf : WF c r L) (p : Nat) (root : Bool) (marks : List Nat)
-    (hrun : r.running = true) (hfresh : p ∉ L.map Prod.fst) (hal : p % 8 = 0) :
+    (hrun : r.running = true) (hfresh : p ∉ L.map Prod.fst) (hal : p % 8 = 0) (hnz : p ≠ 0) :
     ∃ r' t, gcSet c noK r p root marks = some (r', t) ∧
       WF c r' (if r.nitems + 1 > r.mitems then ((p, root) :: L).filter (fun x => x.2 || marks.contains x.1) else (p, root) :: L) ∧
       r'.running = true := by
@@ -438,7 +475,7 @@ theorem gcSet_wf (c : Cfg) (g : GoodCfg c) (r : Reg) (L : Ledger) (hwf : WF c r 
   obtain ⟨s, hs, invs, mems, occs⟩ := setPtr_spec c r1.slots hcore1.inv p root hfresh1
     (by rw [hocc1', ← hwf.count]; omega)
   have wf2 : WF c { r1 with slots := s } ((p, root) :: L) := by
-    refine ⟨⟨invs, ?_⟩, ?_, Or.inl hroom1, ⟨?_, ?_, ?_⟩, ?_, ?_⟩
+    refine ⟨⟨invs, ?_⟩, ?_, Or.inl hroom1, ⟨?_, ?_, ?_, ?_⟩, ?_, ?_⟩
     · intro e
       show Mem s e ↔ _
       rw [mems e]
@@ -474,6 +511,11 @@ theorem gcSet_wf (c : Cfg) (g : GoodCfg c) (r : Reg) (L : Ledger) (hwf : WF c r 
     · intro h0
       have : r1.n = 0 := h0
       omega
+    · intro q b hq
+      rcases List.mem_cons.1 hq with h | h
+      · have : q = p := congrArg Prod.fst h
+        rw [this]; exact hnz
+      · exact hwf.bounded.nonnull q b h
     · show (p :: L.map Prod.fst).Nodup
       exact List.nodup_cons.2 ⟨hfresh, hwf.nodup⟩
     · show r1.pending = #[]
@@ -491,10 +533,13 @@ theorem gcSet_wf (c : Cfg) (g : GoodCfg c) (r : Reg) (L : Ledger) (hwf : WF c r 
   rw [hs]; simp only []
   by_cases h : r.nitems + 1 > r.mitems
   · rw [if_pos (hth.2 h), if_pos h]
-    obtain ⟨ra, r', t, hra, hsw, hwf', hrun'⟩ := collect_wf c g _ _ wf2 true marks
+    have hnz2 : ({ r1 with slots := s } : Reg).nitems ≠ 0 := by show r1.nitems ≠ 0; omega
+    rw [gcMark_eq c _ marks hnz2]
+    obtain ⟨wf3, hmeta3, _⟩ := markStart_wf c _ _ wf2
+    obtain ⟨ra, r', t, hra, hsw, hwf', hrun'⟩ := collect_wf c g _ _ wf3 true marks
     simp only [if_true] at hra
     rw [hra]
-    exact ⟨r', t, hsw, hwf', by rw [hrun']; exact hrun2⟩
+    exact ⟨r', t, hsw, hwf', by rw [hrun', hmeta3.running]; exact hrun2⟩
   · rw [if_neg (fun h' => h (hth.1 h')), if_neg h]
     exact ⟨_, [], rfl, wf2, hrun2⟩
 
@@ -519,6 +564,17 @@ theorem remPtr_wf (c : Cfg) (r : Reg) (L : Ledger) (hwf : WF c r L) (x : Nat) :
     rw [filter_ne_self L x hx]
     exact ⟨r, none, rfl, hwf.core, hwf.count, hwf.room, rfl, rfl, rfl, rfl, rfl, hwf.pend, Or.inl rfl⟩
   · rw [dif_pos hn]
+    by_cases hg : (c.remNullGuard && x == 0) = true
+    · -- `ptr is NULL`: nothing to remove, NULL is not a live object
+      rw [if_pos hg]
+      have hx0 : x = 0 := by simpa using (Bool.and_eq_true_iff.1 hg).2
+      have hx : x ∉ L.map Prod.fst := by
+        intro hx
+        obtain ⟨⟨q, b⟩, hqb, hq⟩ := List.mem_map.1 hx
+        exact hwf.bounded.nonnull q b hqb (by simpa [hx0] using hq)
+      rw [filter_ne_self L x hx]
+      exact ⟨r, none, rfl, hwf.core, hwf.count, hwf.room, rfl, rfl, rfl, rfl, rfl, hwf.pend, Or.inl rfl⟩
+    rw [if_neg hg]
     simp only [hwf.pend, Array.findIdx?_empty]
     obtain ⟨z, hz, hze⟩ := empty_of_room r hwf.count hn hwf.room
     have inv : Inv (hashOf c) r.slots := hwf.core.inv.toInv z hz hze
@@ -579,7 +635,7 @@ theorem gcRem_wf (c : Cfg) (g : GoodCfg c) (r : Reg) (L : Ledger) (hwf : WF c r 
   obtain ⟨r1, fi, hrem, hcore1, hc1, hroom1, hn1, hmi1, hmin1, hmax1, hrun1, hpend1, hfi⟩ := remPtr_wf c r L hwf x
   obtain ⟨r3, hr3, hmeta3, hcore3, hocc3, hroom3, hz3⟩ := resizeLess_spec c g r1 _ hcore1 hc1 hroom1
   have hfuel : nestFuel r = (2 * (r.nitems + r.pending.size) + 2) + 1 + 1 := by unfold nestFuel; omega
-  refine ⟨{ r3 with mitems := c.mitemsOf r3.nitems }, fi.toList, ?_, ⟨hcore3.of_slots rfl HEq.rfl, ?_, hroom3, ⟨?_, ?_, ?_⟩, ?_, ?_⟩, ?_⟩
+  refine ⟨{ r3 with mitems := c.mitemsOf r3.nitems }, fi.toList, ?_, ⟨hcore3.of_slots rfl HEq.rfl, ?_, hroom3, ⟨?_, ?_, ?_, ?_⟩, ?_, ?_⟩, ?_⟩
   · unfold gcRem
     have hnr : (!r.running) = false := by rw [hrun]; rfl
     rw [hfuel, exec_rem_succ, hnr]
@@ -597,6 +653,7 @@ theorem gcRem_wf (c : Cfg) (g : GoodCfg c) (r : Reg) (L : Ledger) (hwf : WF c r 
     show r3.minptr = uintptrMax ∧ r3.maxptr = 0
     rw [hmeta3.minptr, hmeta3.maxptr, hmin1, hmax1]
     exact hwf.bounded.zero (by rw [← hn1]; exact hz3 h0)
+  · intro p b hp; exact hwf.bounded.nonnull p b (List.mem_filter.1 hp).1
   · exact List.Nodup.sublist (List.Sublist.map _ List.filter_sublist) hwf.nodup
   · show r3.pending = #[]
     rw [hmeta3.pending]; exact hpend1
